@@ -16,15 +16,59 @@ import numpy as np
 from scipy import stats
 
 P1 = 1e-6
-SAMPLERS = [("std_exponential", []), ("exponential", ["2.5"]), ("std_normal", []), ("normal", ["1.5", "0.25"])]
+SAMPLERS = [("std_exponential", []), ("exponential", ["2.5"]), ("std_normal", []), ("normal", ["1.5", "0.25"]),
+            # integer-valued samplers (one bin per value); draws are divided by the cost factor in the third field
+            ("alias", ["7", "0.05", "0.3", "0.0", "0.15", "0.25", "0.2", "0.05"], 1), ("alias", ["3", "0.999", "0.0005", "0.0005"], 1),
+            ("loaded_dice", ["5", "0.1", "0.2", "0.3", "0.25", "0.15"], 2), ("dice", ["-3", "3"], 1), ("dice", ["0", "999"], 1),
+            ("flip", [], 1), ("bernoulli", ["0.3"], 1), ("geometric", ["0.3"], 2), ("geometric", ["0.01"], 2),
+            ("poisson", ["3.5"], 8), ("binomial", ["20", "0.35"], 8)]
+
+
+def pmf_of(s, p):
+    """(offset subtracted by the C side, probability vector over bin values 0..)"""
+    f = [float(x) for x in p]
+    if s in ("alias", "loaded_dice"):
+        return np.array(f[1:])
+    if s == "dice":
+        n = int(f[1]) - int(f[0]) + 1; return np.full(n, 1.0 / n)
+    if s == "flip":
+        return np.array([0.5, 0.5])
+    if s == "bernoulli":
+        return np.array([1 - f[0], f[0]])
+    k = np.arange(3072)
+    if s == "geometric":
+        return stats.geom.pmf(k, f[0])           # support 1, 2, ...: bin 0 must stay empty
+    if s == "poisson":
+        return stats.poisson.pmf(k, f[0])
+    return stats.binom.pmf(k, int(f[0]), f[1])
+
+
+def tests_discrete(d, s, p):
+    n = d["draws"]; cnt = np.array(d["counts"], dtype=np.float64); pr = pmf_of(s, p)
+    pr = np.concatenate([pr, np.zeros(len(cnt) - len(pr))]) if len(pr) < len(cnt) else pr[:len(cnt)]
+    out = []
+    imp = int(cnt[pr == 0].sum()) + d["below"] + (d["above"] if pr.sum() > 1 - 1e-15 else 0)
+    out.append(("support", 0.0 if imp else 1.0, f"{imp} draws on values of probability zero (min {d['min']:.0f} max {d['max']:.0f})"))
+    e = pr * n; keep = e > 0
+    c, e = cnt[keep], e[keep]
+    # merge the thin upper tail
+    while len(e) > 2 and e[-1] < 200: e[-2] += e[-1]; c[-2] += c[-1]; e, c = e[:-1], c[:-1]
+    rest = n - e.sum()
+    if rest > 1e-6 * n or d["above"]: e = np.append(e, max(rest, 1e-300)); c = np.append(c, n - c.sum())
+    st = float(((c - e) ** 2 / e).sum()); df = len(c) - 1
+    out.append(("chi2", float(stats.chi2.sf(st, df)) if df > 0 else 1.0, f"chi2={st:.1f} df={df}"))
+    idx = np.flatnonzero(keep)
+    for j in range(min(len(idx), 12)):
+        v = idx[j]; out.append((f"value-{v}", binom_p(int(cnt[v]), n, float(pr[v])), f"value {v}: {int(cnt[v])} seen, {pr[v] * n:.1f} expected"))
+    return out
 
 
 def h64(*xs):
-    z = 0x9e3779b97f4a7c15
-    for x in xs:
-        z = (z ^ (hash(str(x)) & 0xffffffffffffffff)) & 0xffffffffffffffff
-        z = (z * 0xbf58476d1ce4e5b9) & 0xffffffffffffffff
-        z ^= z >> 29
+    """deterministic 64-bit mix of the arguments' text (not Python's per-process salted hash)"""
+    z = 0xcbf29ce484222325
+    for ch in "|".join(str(x) for x in xs).encode():
+        z = ((z ^ ch) * 0x100000001b3) & 0xffffffffffffffff
+    z ^= z >> 29; z = (z * 0xbf58476d1ce4e5b9) & 0xffffffffffffffff; z ^= z >> 32
     return z
 
 
@@ -102,35 +146,38 @@ def main():
     a = ap.parse_args()
     nper = int(a.nper) if a.nper else (125_000_000 if a.tier == "quick" else 2_000_000_000)
     viol, counters, fps, samples = [], {}, [], []
-    for i, (s, p) in enumerate(SAMPLERS):
+    for i, ent in enumerate(SAMPLERS):
+        s, p = ent[0], ent[1]; disc = len(ent) > 2
         if a.only and a.only != s:
             continue
         label = f"{s}({','.join(p)})"
-        d, err = draw(a.exe, h64(a.seed, i, 1), nper, a.jobs, s, p)
+        nper_i = nper // (4 * ent[2]) if disc else nper
+        tests_i = (lambda dd, s=s, p=p: tests_discrete(dd, s, p)) if disc else tests
+        d, err = draw(a.exe, h64(a.seed, i, 1), nper_i, a.jobs, s, p)
         if d is None:
             viol.append({"key": f"C16/sampler-crash/{label}", "count": 1, "case": i, "detail": err}); continue
-        ts = tests(d)
+        ts = tests_i(d)
         counters["bulk_draws"] = counters.get("bulk_draws", 0) + d["draws"]
         counters["bulk_tests"] = counters.get("bulk_tests", 0) + len(ts)
         counters["bulk_samplers"] = counters.get("bulk_samplers", 0) + 1
         worst = min(ts, key=lambda t: t[1])
-        counters["bulk_worst_p_ppm_" + s] = int(worst[1] * 1e6)
+        counters["bulk_worst_p_ppm_" + s] = min(counters.get("bulk_worst_p_ppm_" + s, 10**6), int(worst[1] * 1e6))
         samples.append(f"{label}: {d['draws']} draws, max {d['max']:.3f}, {len(ts)} tests, worst {worst[0]} p={worst[1]:.3g} ({worst[2]})")
         fps.append("+%016x" % h64(label, a.tier))
         failing = [t for t in ts if t[1] < P1]
         if failing:
             counters["bulk_stage2_reruns"] = counters.get("bulk_stage2_reruns", 0) + 1
-            d2, err = draw(a.exe, h64(a.seed, i, 2), nper, a.jobs, s, p)
+            d2, err = draw(a.exe, h64(a.seed, i, 2), nper_i, a.jobs, s, p)
             if d2 is None:
                 viol.append({"key": f"C16/sampler-crash/{label}", "count": 1, "case": i, "detail": err}); continue
             counters["bulk_draws"] += d2["draws"]
-            t2 = {t[0]: t for t in tests(d2)}
+            t2 = {t[0]: t for t in tests_i(d2)}
             for name, p1, info in failing:
                 if t2[name][1] < P1:
                     key = f"C16/support/{label}" if name == "support" else f"C16/bulk/{label}/{name}"
                     viol.append({"key": key, "count": 1, "case": i,
                                  "detail": f"{d['draws']} draws: {info} (p={p1:.3g}); independent repeat: {t2[name][2]} (p={t2[name][1]:.3g})"})
-    ncase = len([1 for s, _ in SAMPLERS if not a.only or a.only == s])
+    ncase = len([1 for e in SAMPLERS if not a.only or a.only == e[0]])
     print(json.dumps({"seed": a.seed, "from": 0, "to": ncase, "profile": 0, "cases": ncase,
                       "violating_cases": len({v['case'] for v in viol}), "abnormal": 0, "inconclusive": 0,
                       "nontrivial": ncase, "counters": counters, "violations": viol, "samples": samples,
